@@ -22,6 +22,10 @@ query mode, cycles):
            the very first action on the loaded document - no query before save - and in the variant
            "query everything first, then set" (thorough: also queried afterwards)
 
+  same-object  ALL 2^7 subsets S x {no border, thick} x {unqueried, queried}: the ONE open subject is
+           saved three times without being reopened (queried between the saves in the queried mode);
+           every saved file is opened by the observer and G_1 == G_0, G_2 == G_1, G_3 == G_2 demanded
+
 The subset family's border configurations include the re-bordered ones (3.0 pt then 0.35 pt and
 0.35 pt then 3.0 pt on the same edges), so the allowance of the live document and of the file differ
 when an existing border is not replaced in memory.
@@ -501,6 +505,13 @@ def eval_case(case, info=None):
             g_prev = g_new
             if k == cycles:
                 break
+            if case.get("same"):
+                # the SAME open subject is saved again (state kept across saves: caches of stored sizes,
+                # buckets rewritten by the save); with q != none it is also read between the saves
+                if q != "none":
+                    geo(subj)
+                    written = {i: None for i in range(len(g_new))}
+                continue
             subj = Document(path)
             if q != "none":
                 gs = geo(subj)
@@ -557,6 +568,12 @@ def gen_cases(tier, seed):
                 for border in ("thick", "oneside"):
                     for q in ("none", "all", "pre"):
                         yield {"kind": "fresh", "family": "subset", "shape": [6, 6], "S": mask, "vals": rot_vals(mask, 0, seed), "border": border, "q": q, "cycles": cycles, "order": "sizes-first"}
+    # same-object family: every subset S, the one open subject saved 3 times (no reopen in between)
+    for mask in range(1 << len(ATTRS)):
+        for border in ("none", "thick"):
+            for q in ("none", "all"):
+                yield {"kind": "fresh", "family": "same-object", "shape": [6, 6], "S": mask, "vals": rot_vals(mask, 1, seed), "border": border, "q": q,
+                       "cycles": 3, "same": True}
     # values family: every value of every alphabet as a singleton S
     for bit, a in enumerate(ATTRS):
         al = [[r, c] for r in range(6) for c in range(6)] if a == "headers" else ALPHABET[a]
